@@ -106,18 +106,18 @@ def LitSound (ρ : Env) (l : Lit) : Prop := (l.zero = true ↔ ρ.mag l.id = 0)
 
 theorem eval_powT (ρ : Env) (b : Lit) :
     evalE ρ (powT b) = (ρ.var "Tgas".toList / 300) ^ (litVal ρ b) := by
-  simp [powT, call2, evalE, evalArgs, numVal_300]
+  simp [powT, call2, evalE, evalArgs, applyFn, numVal_300]
 
 theorem eval_expOverT (ρ : Env) (c : Lit) :
     evalE ρ (expOverT c) = Real.exp (- litVal ρ c / ρ.var "Tgas".toList) := by
-  simp [expOverT, call1, evalE, evalArgs]
+  simp [expOverT, call1, evalE, evalArgs, applyFn]
 
 theorem eval_expAv (ρ : Env) (c : Lit) :
     evalE ρ (expAv c) = Real.exp (- litVal ρ c * ρ.var "Av".toList) := by
-  simp [expAv, call1, evalE, evalArgs]
+  simp [expAv, call1, evalE, evalArgs, applyFn]
 
 theorem eval_sqrt300 (ρ : Env) : evalE ρ sqrt300 = Real.sqrt (300 / ρ.var "Tgas".toList) := by
-  simp [sqrt300, call1, evalE, evalArgs, numVal_300]
+  simp [sqrt300, call1, evalE, evalArgs, applyFn, numVal_300]
 
 theorem litVal_zero (ρ : Env) (l : Lit) (h : LitSound ρ l) (hz : l.zero = true) : litVal ρ l = 0 := by
   have := h.mp hz
